@@ -1441,6 +1441,7 @@ func main() {
 				"field_map": e.Fields, "strict_prefixes_decoded": len(e.B)})
 		}
 	})
+	scalingSection()
 	for g := range srvs {
 		if srvs[g] != nil {
 			srvs[g].stop()
